@@ -39,8 +39,8 @@ theorem get_filter (o : Flat) (q : Path → Bool) (p : Path) :
         simp [get, hq]
       · have hne : (e.1 == p) = false := by simpa using he
         have h1 : get (e :: List.filter (fun e => q e.1) o) p = get (List.filter (fun e => q e.1) o) p := by
-          simp [get, List.find?_cons, hne]
-        have h2 : get (e :: o) p = get o p := by simp [get, List.find?_cons, hne]
+          simp [get, hne]
+        have h2 : get (e :: o) p = get o p := by simp [get, hne]
         rw [h1, h2, ih]
     · rw [List.filter_cons_of_neg (by simpa using hq)]
       rw [ih]
@@ -49,7 +49,7 @@ theorem get_filter (o : Flat) (q : Path → Bool) (p : Path) :
         subst this
         simp [hq]
       · have hne : (e.1 == p) = false := by simpa using he
-        have h2 : get (e :: o) p = get o p := by simp [get, List.find?_cons, hne]
+        have h2 : get (e :: o) p = get o p := by simp [get, hne]
         rw [h2]
 
 /-- MergeCfg, field by field: the value `new` emits, else `old`'s unless hidden by a shorter array of `new`. -/
@@ -93,7 +93,7 @@ theorem get_emitTnb (s : Flat) (p : Path) :
     rw [get_append]
     by_cases h : p = tnbPath
     · subst h
-      simp [hn, get]
+      simp [get]
     · have hb : (tnbPath == p) = false := by simpa using (fun e : tnbPath = p => h e.symm)
       cases hg : get s p <;> simp [get, h, hb]
 
@@ -203,7 +203,7 @@ theorem find_first (pre post : List NodeEntry) (e : NodeEntry) (ls : Labels)
     (hpre : ∀ x ∈ pre, x.sel.matches ls = false) (he : e.sel.matches ls = true) :
     (pre ++ e :: post).find? (fun x => x.sel.matches ls) = some e := by
   induction pre with
-  | nil => simp [List.find?_cons, he]
+  | nil => simp [he]
   | cons x pre ih =>
     have hx := hpre x (by simp)
     simp only [List.cons_append, List.find?_cons, hx]
@@ -275,7 +275,7 @@ theorem no_leak (sys : Bool) (dflt : Flat) (old : SecCfg) (c : Option Flat)
     selectNode ls (mergeSection sys dflt old (.ok c (pre ++ e :: post)))
       = selectNode ls (mergeSection sys dflt old (.ok c (pre ++ post))) := by
   rw [select_ok, select_ok]
-  simp [List.find?_append, List.find?_cons, he]
+  simp [List.find?_append, he]
 
 theorem no_leak_replace (sys : Bool) (dflt : Flat) (old : SecCfg) (c : Option Flat)
     (pre post : List NodeEntry) (sel : Sel) (s s' : Option Flat) (ls : Labels) (he : sel.matches ls = false) :
@@ -394,6 +394,45 @@ theorem run_sections (d : Defaults) (evs : List (Option CM)) : ∀ (st : Cfg),
     cases ev with
     | none => simpa [sync, Cfg.default, secDefault, mergeSection] using h
     | some cm => simpa [sync] using h
+
+/-- The property over HISTORIES, one section: after ANY sequence of inputs whose last parsable one is
+    `.ok c (pre ++ e :: post)` (anything, also unparsable updates, may follow or precede it), a node first
+    selected by `e` gets, at EVERY path, entry <|> cluster <|> default. -/
+theorem history_field_layering (sys : Bool) (dflt : Flat) (init : SecCfg) (ins : List SecIn) (c : Option Flat)
+    (pre post : List NodeEntry) (e : NodeEntry) (ls : Labels) (p : Path)
+    (hlast : lastGood ins = some (.ok c (pre ++ e :: post)))
+    (hpre : ∀ x ∈ pre, x.sel.matches ls = false) (he : e.sel.matches ls = true)
+    (hd : sys = true → get dflt tnbPath = some 0) (hc : RootObj sys c) (hs : RootObj sys e.strat) :
+    get (selectNode ls (ins.foldl (mergeSection sys dflt) init)) p = lay sys e.strat (lay sys c (get dflt)) p := by
+  rw [malformed_keeps_previous, hlast]
+  exact field_layering sys dflt init c pre post e ls p hpre he hd hc hs
+
+/-- same, no entry selects the node: cluster <|> default. -/
+theorem history_field_layering_cluster (sys : Bool) (dflt : Flat) (init : SecCfg) (ins : List SecIn) (c : Option Flat)
+    (ns : List NodeEntry) (ls : Labels) (p : Path)
+    (hlast : lastGood ins = some (.ok c ns)) (hns : ∀ x ∈ ns, x.sel.matches ls = false)
+    (hd : sys = true → get dflt tnbPath = some 0) (hc : RootObj sys c) :
+    get (selectNode ls (ins.foldl (mergeSection sys dflt) init)) p = lay sys c (get dflt) p := by
+  rw [malformed_keeps_previous, hlast]
+  exact field_layering_cluster sys dflt init c ns ls p hns hd hc
+
+/-- same, the last parsable state of the section is "absent" (or the ConfigMap was deleted): the default. -/
+theorem history_absent_is_default (sys : Bool) (dflt : Flat) (init : SecCfg) (ins : List SecIn) (ls : Labels)
+    (hlast : lastGood ins = some .absent) :
+    selectNode ls (ins.foldl (mergeSection sys dflt) init) = dflt := by
+  rw [malformed_keeps_previous, hlast]
+  exact absent_is_default sys dflt init ls
+
+/-- the statement on the real cache: the system section after any ConfigMap event history
+    (the other three strategy sections are the same with `run_sections`). -/
+theorem run_system_layering (d : Defaults) (st : Cfg) (evs : List (Option CM)) (c : Option Flat)
+    (pre post : List NodeEntry) (e : NodeEntry) (ls : Labels) (p : Path)
+    (hlast : lastGood (secInputs (·.sys) evs) = some (.ok c (pre ++ e :: post)))
+    (hpre : ∀ x ∈ pre, x.sel.matches ls = false) (he : e.sel.matches ls = true)
+    (hd : get d.sys tnbPath = some 0) (hc : RootObj true c) (hs : RootObj true e.strat) :
+    get (selectNode ls (run d st evs).sys) p = lay true e.strat (lay true c (get d.sys)) p := by
+  rw [(run_sections d evs st).2.2.2]
+  exact history_field_layering true d.sys st.sys _ c pre post e ls p hlast hpre he (fun _ => hd) hc hs
 
 /-! ### 5. first-match precedence with overlapping selectors -/
 
